@@ -32,7 +32,7 @@ def check(pid, tier, seed):
     r1, recs1, _ = tree_export(1, [], 0, ["bb"])
     single = [(x, e) for x in recs1 if len(x["log"]) == 1 for e in ("readfile", "readfilecb")] * 12
     pool = [(x, e) for x in recs3 if 1 <= len(x["log"]) <= 4 for e in ("std",)] + \
-           [(x, e) for x in recs2 if 1 <= len(x["log"]) <= 4 for e in ("readdirscb", "readhistcb", "rc2cb", "readdirs", "readhist", "rc2")]
+           [(x, e) for x in recs2 if 1 <= len(x["log"]) <= 4 for e in ("readdirscb", "readhistcb", "rc2cb", "readdirs", "readhist", "rc2", "readdirscb_rel", "readhistcb_rel")]
     rnd.shuffle(pool)
     # two drop-in directories per layer (CONFIG_DIRS list, econf_set_conf_dirs): a refusal in the first one stands
     r4, recs4, _ = tree_export(3, [3, 6], 4, ["bb"], nd=2)
@@ -66,7 +66,7 @@ def check(pid, tier, seed):
     cases = []
     meta = []
     for i, (x, ent, attrs, fl) in enumerate(scen):
-        use_cb = ent.endswith("cb") or ent in ("std", "config_dirs", "set_conf_dirs")
+        use_cb = ent.endswith("cb") or ent.endswith("cb_rel") or ent in ("std", "config_dirs", "set_conf_dirs")
         sc, paths, K, shape = scenario_script(i, x, ent, attrs=attrs, flags=fl, reset_reread=True, use_cb=use_cb)
         cases.append((i, sc))
         meta.append((paths, K, use_cb))
@@ -81,7 +81,7 @@ def check(pid, tier, seed):
             verdict.violation("C16:%s:crash" % ent, {"kind": "scenario", "tree": {"main": x["main"], "drop": x["drop"]}, "attrs": {str(k): v for k, v in attrs.items()}, "flags": fl, "crash": (out or {}).get("crash")},
                               "read under restrictions crashed (%s)\n%s" % (ent, (out or {}).get("crash", "")[:800]))
             continue
-        events += scenario_events(x, ent, out, paths, K, attrs=attrs, flags=fl, reset_reread=True, use_cb=use_cb)
+        events += scenario_events(x, ent, out, paths, K, attrs=attrs, flags=fl, reset_reread=True, use_cb=use_cb, idx=i)
         n += 1
         viol = [f for f in K if (fl["owner"] and attrs.get(f, ("ok",) * 3)[0] == "foreign") or (fl["group"] and attrs.get(f, ("ok",) * 3)[1] == "foreign") or (fl["nosym"] and attrs.get(f, ("ok", "ok", False))[2])]
         if len(K) >= 2 and len(viol) == 1:
@@ -94,7 +94,7 @@ def check(pid, tier, seed):
     rc = verdict.finish()
     cov = {"states": mc.distinct, "transitions": mc.generated, "traces_validated_against_impl": n - bad,
            "evaluations": n * 2, "distinct_nontrivial": nn,
-           "rule": "MC_Security: 2-layer trees x every {matching,foreign} owner/group x {regular,symlink} assignment to the consulted files x every flag history of <= 4 steps. Traces: %d scenarios over 3-layer (econf_readConfigWithCallback) and 3-layer trees with two drop-in directories per layer (CONFIG_DIRS list, econf_set_conf_dirs) and 2-layer trees (econf_readFile, econf_readFileWithCallback on single files; econf_readDirs, econf_readDirsWithCallback, econf_readDirsHistory(+WithCallback), econf_readConfig(+WithCallback) with PARSING_DIRS) x the 7 non-empty flag combinations x attribute vectors {exactly one file violating one active rule, random vectors, vectors violating only inactive rules}; files are lchown'ed to uid/gid %d resp. replaced by symbolic links; each scenario = set flags, read, econf_reset_security_settings, read again. Trace_Layers computes the violations from the logged attributes and accepts only the code of the first failing file, no object, no callback for the refused file, full content after reset. non-trivial = >= 2 consulted files of which exactly one violates an active rule." % (n, p_layers.FOREIGN),
+           "rule": "MC_Security: 2-layer trees x every {matching,foreign} owner/group x {regular,symlink} assignment to the consulted files x every flag history of <= 4 steps. Traces: %d scenarios over 3-layer (econf_readConfigWithCallback) and 3-layer trees with two drop-in directories per layer (CONFIG_DIRS list, econf_set_conf_dirs) and 2-layer trees (econf_readFile, econf_readFileWithCallback on single files; econf_readDirs, econf_readDirsWithCallback, econf_readDirsHistory(+WithCallback), econf_readConfig(+WithCallback) with PARSING_DIRS; the directory arguments also as RELATIVE names) x the 7 non-empty flag combinations x attribute vectors {exactly one file violating one active rule, random vectors, vectors violating only inactive rules}; files are lchown'ed to uid/gid %d resp. replaced by symbolic links; each scenario = set flags, read, econf_reset_security_settings, read again. Trace_Layers computes the violations from the logged attributes and accepts only the code of the first failing file, no object, no callback for the refused file, full content after reset. non-trivial = >= 2 consulted files of which exactly one violates an active rule." % (n, p_layers.FOREIGN),
            "samples": events[:3], "exhaustive": False, "trusted_base": ["TLC 1.8.0", "gcc ASan/UBSan", "drv.c (runs as root)"]}
     core.write_evidence(pid, tier, seed, "model_checking", cov,
                         ["checks run as root; foreign = uid/gid 54321", "econf_requirePermissions is not part of the property", "process-wide flags are reset after every scenario"],
